@@ -39,7 +39,7 @@ func init() {
 }
 
 const c14Schema = `enum Color { RED GREEN BLUE }
-enum Unit { kB MB metre }
+enum Unit { kB MB Metre metre KB }
 scalar Any
 input Point { x: Int! y: Int = 0 tags: [String!] child: Point nested: [[Point!]] c: Color = RED any: Any req: [Int!]! = [1] }
 input One @oneOf { a: Int b: String }
@@ -219,7 +219,7 @@ func (g *c14Gen) scalar(name string) interface{} {
 			// besides other kinds: strings and numbers-as-text that only a lenient parser (base prefixes, digit separators) takes for an integer
 			return []interface{}{true, map[string]interface{}{}, []interface{}{}, "abc", "0x1F", "0b101", "0o17", "1_000", json.Number("0x10"), "1.5", " 7", json.Number("9223372036854775808"), json.Number("9.223372036854775808e18"), json.Number("-9223372036854775809")}[r.Intn(14)]
 		case "Float":
-			return []interface{}{true, map[string]interface{}{}, []interface{}{}, "abc", "1,5", "1.5.2", "--1"}[r.Intn(7)]
+			return []interface{}{true, map[string]interface{}{}, []interface{}{}, "abc", "1,5", "1.5.2", "--1", "null", " 1.5", "2.5 ", "1.5\n", "true", "[1]", "\"1\""}[r.Intn(14)]
 		case "String":
 			return []interface{}{1, 2.5, true, map[string]interface{}{}}[r.Intn(4)]
 		case "Boolean":
